@@ -29,9 +29,10 @@ def poly_hash(a, b, vals):
 class Rule:
     """rule := hash:k:a:b:off | probe:k:a:b:off | counter:k:off | nks:R | total:k:R"""
 
-    def __init__(self, spec, scale=1):
+    def __init__(self, spec, scale=1, clobber=False):
         self.spec = spec
         self.scale = scale
+        self.clobber = clobber      # overwrite the neighbourhood array after reading it (a rule may do that)
         p = spec.split(":")
         self.name = p[0]
         self.args = [int(x) for x in p[1:]]
@@ -43,6 +44,11 @@ class Rule:
         cc = tuple(int(x) for x in c) if isinstance(c, (tuple, list, np.void, np.ndarray)) else int(c)
         self.log.append((vals, shape, cc, int(t)))
         out = self.value(vals, shape, cc, int(t))
+        if self.clobber:
+            try:
+                np.ma.getdata(n)[...] = 3        # the block handed to the rule is the rule's to scribble on
+            except (ValueError, TypeError):
+                pass                              # read-only view: nothing to clobber
         return out / self.scale if self.scale != 1 else out
 
     def value(self, vals, shape, cc, t):
